@@ -516,8 +516,12 @@ class World:
 
         def _alarm(signum, frame):
             raise _Timeout()
+        # the budget is CPU time of this process (user + system): a loaded machine does not turn a slow request into an
+        # "unbounded" one. Wall-clock time is a distant backstop only (a request that blocks without computing).
         old = signal.signal(signal.SIGALRM, _alarm)
-        signal.setitimer(signal.ITIMER_REAL, timeout)
+        old_prof = signal.signal(signal.SIGPROF, _alarm)
+        signal.setitimer(signal.ITIMER_PROF, timeout)
+        signal.setitimer(signal.ITIMER_REAL, timeout * 30)
         try:
             r = c.open(url, method=method, base_url=base_url, **kwargs)
             body = r.get_data()
@@ -527,6 +531,7 @@ class World:
             resp = Resp(0, [], b'', ('UNBOUNDED', f'no answer within {timeout}s'), _real_time() - t0, True)
             # the interrupt may have hit SQLAlchemy mid-statement, which makes the pool replace the single
             # in-memory connection by a fresh (empty) one: put the base store back
+            signal.setitimer(signal.ITIMER_PROF, 0)
             signal.setitimer(signal.ITIMER_REAL, 0)
             try:
                 # never deserialize into a connection that may still have a statement in flight (libsqlite3 crashed
@@ -544,8 +549,10 @@ class World:
         except Exception as e:  # exception escaped the WSGI app (PROPAGATE on or werkzeug-level)
             resp = Resp(599, [], b'', (type(e).__name__, traceback.format_exc()), _real_time() - t0)
         finally:
+            signal.setitimer(signal.ITIMER_PROF, 0)
             signal.setitimer(signal.ITIMER_REAL, 0)
             signal.signal(signal.SIGALRM, old)
+            signal.signal(signal.SIGPROF, old_prof)
         return resp
 
     def get(self, url, **kw) -> Resp:
